@@ -97,7 +97,8 @@ def write_inputs(case, tmp):
                               "value_type": "string"}
     cfg = {
         "ingest_data": {"data_source": "json", "data_holder": "sql"},
-        "data_holders": {"sql": {"db_uri": "sqlite:///:memory:",
+        "data_holders": {"sql": {"db_uri": case.get("db_uri",
+                                                    "sqlite:///:memory:"),
                                  "batch_size": case.get("batch", 1000),
                                  "time_buffer": 0}},
         "data_sources": {"json": {"dirpath": data, "filepath": None,
